@@ -124,6 +124,10 @@ ares_htable_t *ares_htable_create(ares_htable_hashfunc_t    hash_func,
   htable->bucket_free = bucket_free;
   htable->key_eq      = key_eq;
   htable->seed        = ares_htable_generate_seed(htable);
+#ifdef CARES_VERIF
+  /* Verification hook: constant seed so bucket order is reproducible */
+  htable->seed = 0x5eed5eedU;
+#endif
   htable->size        = ARES__HTABLE_MIN_BUCKETS;
   htable->buckets = ares_malloc_zero(sizeof(*htable->buckets) * htable->size);
 
